@@ -5,11 +5,11 @@ From Verif Require Import Fmt.Ast Fmt.Print Fmt.Parse Fmt.Wf.
 Import ListNotations.
 Open Scope Z_scope.
 
-(* ---- known classes (Fmt/Wf.v holds the recursive definitions) ---- *)
-Definition Known_C08_float_integral (e : expr) : Prop := has_intfloat e = true.
-(* a slice printed with the `::` token; a finding class until /repo 974c053 taught the parser `::`, now just a shape *)
+(* ---- classes ----
+   No finding class is left inside the proved expression core: the float class (Display dropped ".0") and the
+   `::` slice class are both repaired in /repo; the two predicates remain as shapes for regression witnesses. *)
+Definition float_integral (e : expr) : Prop := has_intfloat e = true.
 Definition slice_colon_colon (e : expr) : Prop := has_cc e = true.
-Definition Known_C08 (e : expr) : Prop := Known_C08_float_integral e.
 
 (* ---- rendering to integers ---- *)
 Definition kw_code (k : kw) : Z :=
